@@ -54,7 +54,7 @@ def _analyses():
     thread = lambda c, w: kt.global_effects(c, w, thread=True)
     return {
         "C01": (
-            [a3.vjp, a3.helpers, a3_reduce.reductions, a16_perm.permutations_rule, a16_perm.norm_rolls, vjp_axis, a2.catchall, a2.variadic, a1.arity, ka.option_domains, a5_factor.agree, ka.arraybox_table],
+            [a3.vjp, a3.helpers, a3_reduce.reductions, km.squeeze_axes, a16_perm.permutations_rule, a16_perm.norm_rolls, vjp_axis, a2.catchall, a2.variadic, a1.arity, ka.option_domains, a5_factor.agree, ka.arraybox_table],
             "Reverse-mode exactness is numerical; decided here are the configuration-dependent plumbing clauses every exact rule needs: "
             "broadcast discipline of VJPs (A3.vjp), negative-axis hazards (A7), keyword/positional binding behind catch-alls (A2.catchall), "
             "variadic offsets (A2.variadic), arity (A1.arity), closed option domains (A6.enum), VJP/JVP factor agreement of elementwise rules (A5) "
@@ -77,12 +77,12 @@ def _analyses():
             "factors IS adjointness for all inputs); linearity in g of every rule closure (two-point domain over linear_in facts); 'same' entries only on linear pairs.",
         ),
         "C05": (
-            [a3.vjp, a3.helpers, a3_reduce.reductions, a4.match, kc.zero_paths, a1.types, a2.layout],
+            [a3.vjp, a3.helpers, a3_reduce.reductions, km.squeeze_axes, a4.match, kc.zero_paths, a1.types, a2.layout],
             "A gradient lives in its argument's space: shape support under broadcasting (A3.vjp), real/complex kind for every kind assignment of the arguments (A4.match, exhaustive 2^n), "
             "zeros of the argument's / output's space on independent paths (A13.zero), one Box and one VSpace per differentiable type (A1.types), container layout (A2.layout).",
         ),
         "C06": (
-            [kt.trace_fn, kt.wrapper, kt.notrace_wrapper, kt.find_top, kt.new_trace, km.wrap_namespace, ka.arraybox_table, a1.methods, ka.operators, ka.wrapper_signatures, kc.inplace_sites],
+            [kt.trace_fn, kt.wrapper, kt.notrace_wrapper, kt.find_top, kt.new_trace, km.wrap_namespace, ka.arraybox_table, a1.methods, ka.operators, ka.wrapper_signatures, km.axis_normalisation_consistency, kc.inplace_sites],
             "Value transparency: trace() returns the unboxed value; the wrapper calls the raw function unchanged on plain inputs and unboxes exactly one level; ArrayBox's "
             "operator/method/property table follows the Python data model (A14); operators return primal/aux untouched (A15); re-implemented wrappers keep NumPy's optional "
             "parameter names, positions and defaults (A6.wrapsig); no in-place write to a parameter (A9.inplace).",
@@ -118,7 +118,7 @@ def _analyses():
             "every registered container space resolves its abstract members, flatten destructures make_vjp as (unflatten, flat) and visits dict keys in sorted order.",
         ),
         "C13": (
-            [a1.types, _vspace_members, a4.vspace, km.container_vspaces, kc.purity, kc.ownership],
+            [a1.types, _vspace_members, a4.vspace, km.container_vspaces, km.layout_independence, kc.purity, kc.ownership],
             "Only the non-numeric clauses: registry agreement (A1.types), every registered space resolves zeros/ones/standard_basis/randn/_inner_prod to a concrete body and __eq__ "
             "compares type and structure fields, ComplexArrayVSpace overrides (A4.vspace), purity and mut_add(None, x) freshness (A9.pure).",
         ),
@@ -128,7 +128,7 @@ def _analyses():
             "facts about NumPy) for both node types (A1.sym); comparisons map to untraced functions, __bool__/shape/len read the raw value (A14); the notrace branch returns plain values.",
         ),
         "C15": (
-            [kc.raise_discipline, ka.guard_dominance, ka.option_domains, ka.sibling_guards, ka.raw_calls_in_wrappers, ka.arraybox_table, ka.operators, a1.nograd, a1.none_rules, _namespace_classes, km.wrap_namespace],
+            [kc.raise_discipline, ka.guard_dominance, ka.option_domains, ka.sibling_guards, ka.raw_calls_in_wrappers, ka.arraybox_table, ka.operators, a1.nograd, a1.none_rules, _namespace_classes, km.wrap_namespace, km.guard_functions],
             "Loud failure: handlers on the rule-lookup/boxing path end in raise and lookups index (A6.raise), guards cannot be bypassed (A6.dom), closed option domains covered (A6.enum), "
             "guard agreement VJP<->JVP (A6.sibling), raw results re-traced (A6.rawcall), no __setitem__/in-place dunders and output checks of grad/value_and_grad/elementwise_grad (A6.ops), "
             "the only declarative ways to drop dependence are locally constant (A1.nograd/none), namespace classification of every exported callable.",
